@@ -241,7 +241,8 @@ class C10(pw.P21Check):
                 "probes": {"instances_on_a_cycle": cyc, "self_references": selfref, "repeated_loads": len(loads) - len(set(loads)),
                            "complex_instances": sum(1 for x in plan["model"]["insts"] if len(x["parts"]) > 1),
                            "loads": len(loads), "deps_queries": sum(1 for h in plan["history"] if h["op"] == "deps"),
-                           "hash_in_string": 1 if "#" in "".join(v[1] for x in plan["model"]["insts"] for p in x["parts"] for v in p["vals"] if v[0] == "str") else 0},
+                           "hash_in_string": 1 if "#" in "".join(v[1] for x in plan["model"]["insts"] for p in x["parts"] for v in p["vals"] if v[0] == "str") else 0,
+                           "apostrophe_after_page_directive": 1 if "\\S\\'" in "".join(v[1] for x in plan["model"]["insts"] for p in x["parts"] for v in p["vals"] if v[0] == "str") else 0},
                 "faults": {}, "io": done[0]["io_reads"] if done else 0,
                 "state": core.hash_obj([o.get("loaded") for o in obs["main"]["steps"] if o.get("op") == "lazy_load"])}
 
